@@ -7,7 +7,8 @@ python3 - <<'PY'
 import sys, os
 sys.path.insert(0, "lib")
 import runner
-ok, log = runner.ensure_coq()
+res = runner.ensure_coq()
+ok, log = res[0], res[1]
 print(log[-4000:])
 if not ok:
     print("coq build failed"); sys.exit(1)
